@@ -337,7 +337,11 @@ def execS (c : Ctx) (env : Env) (w : World) : GS → Option Flow
     (bindAll isDef env ns vs).map fun env' => .next env' w1
   | .varDecl n ty vals =>
     match vals with
-    | [] => if ty = s%"bytes.Buffer" then some (.next (define env n .unit) { w with buf := [] }) else none
+    | [] =>
+      -- `var buf bytes.Buffer`: a fresh, empty buffer; any other `var x T`: the zero value, which
+      -- the program must overwrite before it uses it (`.unit` answers no operation)
+      if ty = s%"bytes.Buffer" then some (.next (define env n .unit) { w with buf := [] })
+      else some (.next (define env n .unit) w)
     | [e] => (evalE c env w e).bind fun (vs, w1) =>
         match vs with
         | [v] => some (.next (define env n v) w1)
